@@ -34,6 +34,14 @@ Definition C01_statement : Prop :=
     let w2 := run w1 ls2 in
     forall i t p t' p', applied_in w1 i t p -> applied_in w2 i t' p' -> t = t' /\ p = p'.
 
+(* C09 (state-machine safety part): the same, for every schedule INCLUDING add-server, promote, demote and
+   remove-server requests. *)
+Definition C09_statement : Prop :=
+  forall ids boot et ld ls1 ls2,
+    let w1 := run (init_world ids boot et ld) ls1 in
+    let w2 := run w1 ls2 in
+    forall i t p t' p', applied_in w1 i t p -> applied_in w2 i t' p' -> t = t' /\ p = p'.
+
 (* C02: never two leaders in one term, at any point of any execution. *)
 Definition leader_of (w : world) (id : nid) (t : N) : Prop :=
   exists n, In n (w_nodes w) /\ n_id n = id /\ n_role n = Leader /\ n_term n = t.
